@@ -624,7 +624,7 @@ def _mutate(rec, m, rv, vm, ch, world):
         bad["xyzr"] = True
     rec.check("write_confinement", not bad, what="tables changed outside (selected rows x touched columns)", outside=bad, **tag)
     # restore inputs/recordings so that histories stay small
-    if mut in ("stimulate", "clamp"):
+    if mut in ("stimulate", "clamp") and sum(len(np.asarray(v)) for v in m.external_inds.values()) > 8:
         m.delete_stimuli()
         m.delete_clamps()
     if mut == "record":
